@@ -96,6 +96,28 @@ def check(ctx, pcirc, mons, sweep, exc, replay, lossless=False):
             if abs(pin_tot - pout_tot) > 1e-8 * max(1.0, cond) * max(1.0, pin_tot):
                 ctx.violation("C10:power-balance", f"lossless monitored part without exposed pins: power in {pin_tot:.9f} != out {pout_tot:.9f}", replay)
                 return False
+    # read-outs do not remember earlier excitations: one exposed pin at a time on the same solved model, then the first one again
+    later = [{nm: 1.0} for nm in names[:3]] + [dict(exc)]
+    for exc2 in later:
+        try:
+            tab2 = mod.get_monitor(dict(exc2), power=False)
+        except Exception as e:  # noqa
+            ctx.violation(f"C10:raised-{type(e).__name__}", f"a later get_monitor on the same solved model raised {type(e).__name__}", replay)
+            return False
+        u2 = np.array([exc2.get(nm, 0.0) for nm in names], complex)
+        for k in range(ns):
+            conc = c04.at_point(pcirc, {"pa": sweep[k]})
+            a, b, pos, cond, Tref = full_waves(conc, u2)
+            if cond > 1e6:
+                continue
+            tol = 1e-9 * max(1.0, cond)
+            for (c, p) in exp_keys:
+                gi, go = tab2[f"M{c}_{p}_i"].iloc[k], tab2[f"M{c}_{p}_o"].iloc[k]
+                ai, bo = a[pos[(c, p)]], b[pos[(c, p)]]
+                if abs(gi - ai) > tol or abs(go - bo) > tol:
+                    ctx.violation("C10:readout-remembers", f"monitor M{c}_{p} at sweep point {k} for the later excitation {sorted(exc2)} on the same solved model: "
+                                  f"reported in/out {gi:.6f}/{go:.6f}, network solution {ai:.6f}/{bo:.6f}", replay)
+                    return False
     return True
 
 
